@@ -193,6 +193,9 @@ func (securityAssociation *SecurityAssociation) Unmarshal(b []byte) error {
 			transform.TransformType = transformData[4]
 			transform.TransformID = binary.BigEndian.Uint16(transformData[6:8])
 			if transformLength > 8 {
+				if transformLength < 12 {
+					return errors.Errorf("Transform: Illegal transform length %d, too short for an attribute", transformLength)
+				}
 				transform.AttributePresent = true
 				transform.AttributeFormat = ((transformData[8] & 0x80) >> 7)
 				transform.AttributeType = binary.BigEndian.Uint16(transformData[8:10]) & 0x7fff
@@ -200,11 +203,12 @@ func (securityAssociation *SecurityAssociation) Unmarshal(b []byte) error {
 				if transform.AttributeFormat == 0 {
 					attributeLength := binary.BigEndian.Uint16(transformData[10:12])
 					// bounds checking
-					if (12 + attributeLength) != transformLength {
+					if (12 + int(attributeLength)) != int(transformLength) {
 						return errors.Errorf("Illegal attribute length %d not satisfies the transform length %d",
 							attributeLength, transformLength)
 					}
-					copy(transform.VariableLengthAttributeValue, transformData[12:12+attributeLength])
+					transform.VariableLengthAttributeValue = append(transform.VariableLengthAttributeValue,
+						transformData[12:transformLength]...)
 				} else {
 					transform.AttributeValue = binary.BigEndian.Uint16(transformData[10:12])
 				}
